@@ -222,6 +222,17 @@ def run_gen(ctx, case):
             ctx.hit('are_connected:Molecule.atoms')
             if bool(got) != ref.connected(truth['n'], truth['bonds']) and not any(c.startswith('repeated-section:') for c in truth['classes']):
                 ctx.violation('are_connected-wrong', f'on Molecule.atoms: {got}')
+    # the documented signature MoleculeTop(ftop, file_format=None): format given positionally, by keyword, not at all
+    from gaddlemaps.components import MoleculeTop
+    try:
+        variants = [MoleculeTop(path, 'itp'), MoleculeTop(path, file_format='itp'), MoleculeTop(ftop=path)]
+        ctx.hit('api:file-format-positional')
+        for v in variants:
+            if v.name != mt.name or not (v == mt):
+                ctx.violation('topology-depends-on-how-the-format-is-passed', f'name {v.name!r} vs {mt.name!r}')
+                break
+    except Exception as exc:  # noqa
+        ctx.violation(f'reader-raises:{type(exc).__name__}:format-argument', str(exc)[:200])
     check_copy(ctx, mt, rng)
 
 
